@@ -213,6 +213,9 @@ struct ExprCase<'a> {
     unlimited: bool,
     /// label of the generator family (evidence only)
     family: &'static str,
+    /// record the case in the distinct-non-trivial hash set (false for the largest exhaustive
+    /// layers, whose members are distinct by construction and are only counted, to bound memory)
+    hash_nt: bool,
 }
 
 /// Lexical test for "has at least one operator / function / sexagesimal form".
@@ -388,7 +391,10 @@ fn check_expr(run: &Run, c: &ExprCase, calib: Option<&Calib>, l: &mut Local) {
                 true
             }
         };
-        if held && op {
+        if held && op && !c.hash_nt {
+            l.count(&format!("nontrivial_counted_not_hashed/{}", c.family));
+        }
+        if held && op && c.hash_nt {
             run.nontrivial(fnv_parts(&[docu.as_bytes(), target.name().as_bytes(), &[c.unlimited as u8]]));
             l.count(&format!("nontrivial_by_family/{}", c.family));
         }
@@ -471,6 +477,258 @@ const COMMUTE_FIXED: &[&str] = &[
     "1:30", "rad(0)", "deg(1)", "2", "pi", "deg(1:30)", "rad(1:30)", "deg(rad(1))", "0:0:30.5", "(1+2)", "-3", "rad(deg(2))", ".inf", "1e3",
     "deg(rad(0) + 1:30)", "12:00:00", "rad(deg(1:30))", "0.1",
 ];
+
+
+// ------------------------------------------------------------------ identities / grouping / unit relations (no value table needed)
+
+#[allow(clippy::too_many_arguments)]
+fn rel_json(sig: &str, kind: &str, x: &str, y: &str, tag_x: Tag, tag_y: Tag, ctx: Ctx, zf: bool, target: Target) -> Value {
+    json!({"kind": "relation", "sig": sig, "relation": kind, "x": x, "y": y, "tag": tag_x.source(), "tag_y": tag_y.source(),
+           "ctx": ctx.name(), "zero_sign_free": zf, "target": target.name()})
+}
+
+fn show_r(r: &Result<Num, serde_saphyr::Error>) -> String {
+    match r {
+        Ok(v) => v.show(),
+        Err(e) => format!("Err({})", err_label(e)),
+    }
+}
+
+/// Evaluate `text` under (tag, ctx) into both targets; None when the document is not confirmed
+/// or the library panics (the panic is reported).
+fn both(run: &Run, text: &str, tag: Tag, ctx: Ctx) -> Option<(Result<f64, serde_saphyr::Error>, Result<f32, serde_saphyr::Error>)> {
+    let Some(d) = build(text, tag, ctx, 0) else {
+        run.inconclusive("generator-invalid: raw parser does not confirm the scalar document");
+        return None;
+    };
+    run.evals(2);
+    let r = catch(|| (doc::eval::<f64>(&d, ctx, mk_opts(true, false)), doc::eval::<f32>(&d, ctx, mk_opts(true, false))));
+    match r {
+        Ok(x) => Some(x),
+        Err(p) => {
+            vio(run, &format!("C19:panic:{}", panic_site(&p)), json!({"kind": "expr", "text": text, "tag": tag.source(), "ctx": ctx.name(), "style": 0, "unlimited": false, "target": "f64"}), p);
+            None
+        }
+    }
+}
+
+/// `y` must behave exactly like `x`: both rejected, or the same f64 bits, and the f32 result of `y`
+/// is the f32 result of `x` or the f64 result of `x` rounded to f32 (a lone literal is read directly,
+/// the same value inside an expression is computed in f64). `zero_sign_free`: x + 0 turns -0 into +0.
+#[allow(clippy::too_many_arguments)]
+fn same_as(
+    run: &Run,
+    sig: &str,
+    relation: &str,
+    x: &str,
+    y: &str,
+    tag_x: Tag,
+    tag_y: Tag,
+    ctx: Ctx,
+    zero_sign_free: bool,
+    l: &mut Local,
+) -> bool {
+    let (Some((x64, x32)), Some((y64, y32))) = (both(run, x, tag_x, ctx), both(run, y, tag_y, ctx)) else { return false };
+    let eq64 = |a: f64, b: f64| dump::f64s(a) == dump::f64s(b) || (zero_sign_free && a == 0.0 && b == 0.0);
+    let eq32 = |a: f32, b: f32| dump::f32s(a) == dump::f32s(b) || (zero_sign_free && a == 0.0 && b == 0.0);
+    let ok64 = match (&x64, &y64) {
+        (Err(_), Err(_)) => true,
+        (Ok(a), Ok(b)) => eq64(*a, *b),
+        _ => false,
+    };
+    let ok32 = match (&x32, &y32, &x64) {
+        (Err(_), Err(_), _) => true,
+        (Ok(a), Ok(b), Ok(a64)) => eq32(*a, *b) || eq32(*a64 as f32, *b),
+        _ => false,
+    };
+    let tagy = if tag_y != tag_x { format!(" [{}]", tag_y.source()) } else { String::new() };
+    if !ok64 {
+        vio(
+            run,
+            sig,
+            rel_json(sig, relation, x, y, tag_x, tag_y, ctx, zero_sign_free, Target::F64),
+            format!("`{x}` -> {} ; `{y}`{tagy} -> {}", show_r(&x64.map(Num::F64)), show_r(&y64.map(Num::F64))),
+        );
+    } else if !ok32 {
+        vio(
+            run,
+            sig,
+            rel_json(sig, relation, x, y, tag_x, tag_y, ctx, zero_sign_free, Target::F32),
+            format!("`{x}` -> {} ; `{y}`{tagy} -> {}", show_r(&x32.map(Num::F32)), show_r(&y32.map(Num::F32))),
+        );
+    } else {
+        l.count(if x64.is_ok() { "relations/held_both_ok" } else { "relations/held_both_err" });
+        l.count(&format!("relations_by_kind/{relation}"));
+        return x64.is_ok();
+    }
+    false
+}
+
+/// Exact IEEE identities and transparent grouping around ANY expression `x` (also the unspecified classes).
+fn check_identities(run: &Run, x: &str, tag: Tag, ctx: Ctx, l: &mut Local) {
+    let mut any_ok = false;
+    // transparent forms: valid under every tag
+    for (name, y) in [("parenthesised", format!("({x})")), ("unary-plus", format!("+({x})")), ("double-negation", format!("--({x})")), ("negated-twice", format!("-(-({x}))")), ("double-parenthesised", format!("(({x}))"))] {
+        any_ok |= same_as(run, &format!("C19:identity:{name}"), name, x, &y, tag, tag, ctx, false, l);
+    }
+    // forms that add a bare neutral element: under !degrees a bare term next to a unitized one is a
+    // documented error, so these are only compared under the other tags
+    if tag != Tag::Degrees {
+        for (name, y, zf) in [
+            ("times-one", format!("({x})*1"), false),
+            ("one-times", format!("1*({x})"), false),
+            ("divided-by-one", format!("({x})/1"), false),
+            ("minus-zero", format!("({x})-0"), false),
+            ("plus-zero", format!("({x})+0"), true),
+            ("zero-plus", format!("0+({x})"), true),
+            ("times-one-point-zero", format!("({x}) * 1.0"), false),
+        ] {
+            any_ok |= same_as(run, &format!("C19:identity:{name}"), name, x, &y, tag, tag, ctx, zf, l);
+        }
+    }
+    // the same inside a unit call (bare terms inside deg()/rad() are in that unit): every tag
+    for f in ["deg", "rad"] {
+        let base = format!("{f}({x})");
+        for (name, y) in [("in-unit-call-times-one", format!("{f}(({x})*1)")), ("in-unit-call-minus-zero", format!("{f}(({x})-0)")), ("in-unit-call-parenthesised", format!("{f}(({x}))")), ("in-unit-call-one-times", format!("{f}(1*({x}))"))] {
+            any_ok |= same_as(run, &format!("C19:identity:{name}"), name, &base, &y, tag, tag, ctx, false, l);
+        }
+    }
+    if any_ok {
+        run.nontrivial(fnv_parts(&[x.as_bytes(), tag.source().as_bytes(), ctx.name().as_bytes(), b"identities"]));
+    }
+    // f32 result of a computed expression is the f64 result narrowed (FromF64: `v as f32`)
+    if has_operator(x)
+        && let Some((Ok(a), Ok(b))) = both(run, x, tag, ctx)
+    {
+        if dump::f32s(a as f32) == dump::f32s(b) {
+            l.count("relations/f32_is_f64_result_narrowed");
+        } else {
+            vio(
+                run,
+                "C19:f32-not-narrowed-from-f64-result",
+                json!({"kind": "relation-f32", "x": x, "tag": tag.source(), "ctx": ctx.name()}),
+                format!("f64 {} (as f32 {}) but f32 {}", Num::F64(a).show(), Num::F32(a as f32).show(), Num::F32(b).show()),
+            );
+        }
+    }
+}
+
+/// `(A) op (B)` vs `A op B` (operands rendered so that precedence allows the bare form).
+fn check_grouping(run: &Run, a: &str, b: &str, op: char, tag: Tag, ctx: Ctx, l: &mut Local) {
+    let x = format!("{a} {op} {b}");
+    let mut any_ok = false;
+    for (name, y) in [("group-both", format!("({a}) {op} ({b})")), ("group-left", format!("({a}) {op} {b}")), ("group-right", format!("{a} {op} ({b})")), ("group-all", format!("(({a}){op}({b}))"))] {
+        any_ok |= same_as(run, "C19:parenthesisation:grouping-changes-result", name, &x, &y, tag, tag, ctx, false, l);
+    }
+    if any_ok {
+        run.nontrivial(fnv_parts(&[x.as_bytes(), tag.source().as_bytes(), ctx.name().as_bytes(), b"grouping"]));
+    }
+}
+
+/// For an expression `x` without unit functions / sexagesimal forms:
+/// `rad(x)`, `!radians x`, `!radians rad(x)` and `x` are the same number; `deg(x)`, `!degrees x`,
+/// `!degrees deg(x)`, `!radians deg(x)` are x converted once (any of the admitted roundings of x*pi/180).
+fn check_unit_vs_tag(run: &Run, x: &str, ctx: Ctx, l: &mut Local) {
+    for (name, y, ty) in [
+        ("rad-call", format!("rad({x})"), Tag::None),
+        ("radians-tag", x.to_string(), Tag::Radians),
+        ("radians-tag-rad-call", format!("rad({x})"), Tag::Radians),
+        ("degrees-tag-rad-call", format!("rad({x})"), Tag::Degrees),
+        ("float-tag", x.to_string(), Tag::Float),
+    ] {
+        if same_as(run, "C19:rad-function-vs-radians-tag", name, x, &y, Tag::None, ty, ctx, false, l) {
+            run.nontrivial(fnv_parts(&[x.as_bytes(), name.as_bytes(), ctx.name().as_bytes(), b"rad-vs-tag"]));
+        }
+    }
+    let Some((Ok(v), _)) = both(run, x, Tag::None, ctx) else { return };
+    let cands = refeval::deg2rad_all(v);
+    for (name, y, ty) in [
+        ("deg-call", format!("deg({x})"), Tag::None),
+        ("degrees-tag", x.to_string(), Tag::Degrees),
+        ("degrees-tag-parenthesised", format!("({x})"), Tag::Degrees),
+        ("degrees-tag-deg-call", format!("deg({x})"), Tag::Degrees),
+        ("radians-tag-deg-call", format!("deg({x})"), Tag::Radians),
+    ] {
+        let Some((r64, r32)) = both(run, &y, ty, ctx) else { continue };
+        let ok = match (&r64, &r32) {
+            (Ok(a), Ok(b)) => matches64(&cands, *a) && matches32(&cands.iter().map(|c| *c as f32).collect::<Vec<_>>(), *b),
+            _ => false,
+        };
+        if ok {
+            l.count("relations/held_both_ok");
+            l.count(&format!("relations_by_kind/{name}"));
+            run.nontrivial(fnv_parts(&[x.as_bytes(), y.as_bytes(), ty.source().as_bytes(), ctx.name().as_bytes(), b"deg"]));
+        } else {
+            vio(
+                run,
+                "C19:deg-function-vs-degrees-tag",
+                json!({"kind": "relation-deg", "relation": name, "x": x, "y": y, "tag_y": ty.source(), "ctx": ctx.name()}),
+                format!("`{x}` -> {} ; `{y}` [{}] -> {} / {} ; expected x converted once: {}", Num::F64(v).show(), ty.source(), show_r(&r64.map(Num::F64)), show_r(&r32.map(Num::F32)), cands.iter().map(|c| Num::F64(*c).show()).collect::<Vec<_>>().join(" | ")),
+            );
+        }
+    }
+}
+
+// ------------------------------------------------------------------ number lexing family
+
+const NUM_SIGNS: &[&str] = &["", "+", "-"];
+const NUM_MANTISSAS: &[&str] = &["1", "12", "123", "1.5", "12.34", "0.125", ".5", "5.", "100.001", "9007199254740993", "0.1", "123456.789"];
+const NUM_EXPONENTS: &[&str] = &["", "e5", "E5", "e+5", "e-5", "e10", "e-10", "e+10", "e-123", "e05", "E-07"];
+
+/// All insertions of one or two `_` at any position of `base` (valid and invalid placements).
+fn underscore_variants(base: &str) -> Vec<String> {
+    let cs: Vec<char> = base.chars().collect();
+    let mut out = vec![base.to_string()];
+    for p in 0..=cs.len() {
+        let mut s: Vec<char> = cs.clone();
+        s.insert(p, '_');
+        out.push(s.iter().collect());
+        for q in p..=cs.len() {
+            let mut s2 = s.clone();
+            s2.insert(q + 1, '_');
+            out.push(s2.iter().collect());
+        }
+    }
+    out
+}
+
+fn check_numlex(run: &Run, base: &str, l: &mut Local) {
+    for v in underscore_variants(base) {
+        let stripped: String = v.chars().filter(|c| *c != '_').collect();
+        for tag in [Tag::None, Tag::Radians, Tag::Degrees, Tag::Float] {
+            for (pre, post) in [("", ""), ("2*(", ")"), ("deg(", ")"), ("1 - ", "")] {
+                let text = format!("{pre}{v}{post}");
+                // reference model: placement rules + value
+                check_expr(run, &ExprCase { text: &text, tag, ctx: Ctx::Root, style: 0, unlimited: false, family: "number-lexing", hash_nt: true }, None, l);
+                // the same literal without separators: identical result whenever the separators are accepted
+                if v != stripped && matches!(reference(&text, tag).0, Verdict::Value(_)) {
+                    let plain = format!("{pre}{stripped}{post}");
+                    if same_as(run, "C19:separator-changes-value", "separators-removed", &plain, &text, tag, tag, Ctx::Root, false, l) {
+                        run.nontrivial(fnv_parts(&[text.as_bytes(), tag.source().as_bytes(), b"separators"]));
+                    }
+                }
+            }
+        }
+    }
+}
+
+/// Arbitrary bytes (mostly not UTF-8) as a whole document through the slice entry point: totality only.
+fn check_rawbytes(run: &Run, d: &[u8], cal: &Calib) {
+    for target in ["f64", "f32", "any"] {
+        run.eval();
+        let case = || json!({"kind": "rawbytes", "bytes": d, "target": target});
+        let r = timed(run, Some(cal), d.len(), "rawbytes", case, || {
+            catch(|| match target {
+                "f64" => serde_saphyr::from_slice_with_options::<f64>(d, mk_opts(true, false)).is_ok(),
+                "f32" => serde_saphyr::from_slice_with_options::<f32>(d, mk_opts(true, false)).is_ok(),
+                _ => serde_saphyr::from_slice_with_options::<dump::Any>(d, mk_opts(true, false)).is_ok(),
+            })
+        });
+        if let Err(p) = r {
+            vio(run, &format!("C19:panic:{}", panic_site(&p)), case(), p);
+        }
+    }
+}
 
 // ------------------------------------------------------------------ plain literals: option on vs off
 
@@ -951,6 +1209,8 @@ fn compare_nr(run: &Run, docs: &[String], off_nr: &[String], on_nr: &[String]) {
 
 const TOKENS_A: &[&str] = &["3", "0.7", "pi", "+", "-", "*", "/", "(", ")", "deg(", "rad(", "1:30", " "];
 const TOKENS_B: &[&str] = &["1", "5", "_", ".", "e", "-", "+", ":", "60"];
+const TOKENS_D: &[&str] = &["pi", "tau", ".inf", ".nan", "0", "-", "/", "*", "(", ")", "1e400"];
+const TOKENS_C: &[&str] = &["deg(", "rad(", "(", ")", "+", "-", "*", "1:30", "90", "tau", ".inf"];
 
 fn space_size(k: usize, max_len: usize) -> usize {
     (1..=max_len).map(|l| k.pow(l as u32)).sum()
@@ -994,6 +1254,7 @@ fn replay(run: &Run, case: &Value) {
                 style: case["style"].as_u64().unwrap_or(0) as u8,
                 unlimited: case["unlimited"].as_bool().unwrap_or(false),
                 family: "replay",
+                hash_nt: true,
             };
             let cal = Calib::measure();
             check_expr(run, &c, Some(&cal), &mut l);
@@ -1018,6 +1279,27 @@ fn replay(run: &Run, case: &Value) {
         "commute" => {
             let op = s("op").chars().next().unwrap_or('+');
             check_commute(run, &s("a"), &s("b"), op, case["wrapper"].as_u64().unwrap_or(0) as usize, Tag::from_source(&s("tag")), Ctx::from_name(&s("ctx")), &mut l);
+        }
+        "relation" => {
+            same_as(
+                run,
+                &s("sig"),
+                &s("relation"),
+                &s("x"),
+                &s("y"),
+                Tag::from_source(&s("tag")),
+                Tag::from_source(&s("tag_y")),
+                Ctx::from_name(&s("ctx")),
+                case["zero_sign_free"].as_bool().unwrap_or(false),
+                &mut l,
+            );
+        }
+        "relation-f32" => check_identities(run, &s("x"), Tag::from_source(&s("tag")), Ctx::from_name(&s("ctx")), &mut l),
+        "relation-deg" => check_unit_vs_tag(run, &s("x"), Ctx::from_name(&s("ctx")), &mut l),
+        "rawbytes" => {
+            let b: Vec<u8> = case["bytes"].as_array().map(|a| a.iter().filter_map(|v| v.as_u64().map(|v| v as u8)).collect()).unwrap_or_default();
+            let cal = Calib::measure();
+            check_rawbytes(run, &b, &cal);
         }
         "smoke" => {
             run_smoke(run, case["index"].as_u64().map(|i| i as usize));
@@ -1073,8 +1355,14 @@ fn main() {
     }
 }
 
+fn process_cpu_s() -> f64 {
+    let mut ts = libc::timespec { tv_sec: 0, tv_nsec: 0 };
+    unsafe { libc::clock_gettime(libc::CLOCK_PROCESS_CPUTIME_ID, &mut ts) };
+    ts.tv_sec as f64 + ts.tv_nsec as f64 / 1e9
+}
+
 fn mark(run: &Run, what: &str) {
-    run.note(format!("t+{:.1}s: {what} done", run.elapsed_s()));
+    run.note(format!("t+{:.1}s wall, {:.0}s process CPU: {what} done", run.elapsed_s(), process_cpu_s()));
 }
 
 fn real_main(run: Run) {
@@ -1140,7 +1428,7 @@ fn real_main(run: Run) {
         for (t, tag) in readme {
             for ctx in [Ctx::Root, Ctx::Seq, Ctx::Map] {
                 for style in 0..3 {
-                    check_expr(&run, &ExprCase { text: t, tag: *tag, ctx, style, unlimited: false, family: "documented-examples" }, Some(&calib), &mut l);
+                    check_expr(&run, &ExprCase { text: t, tag: *tag, ctx, style, unlimited: false, family: "documented-examples", hash_nt: true }, Some(&calib), &mut l);
                 }
             }
         }
@@ -1148,29 +1436,66 @@ fn real_main(run: Run) {
     }
 
     // ---- 1. exhaustive token strings
-    let len_a = tier.pick(5, 6);
+    let len_a = tier.pick(6, 7);
     let n_a = space_size(TOKENS_A.len(), len_a);
+    let n_a_hashed = space_size(TOKENS_A.len(), 6); // the 7-token layer is counted, not hashed (memory)
     par_chunks(&run, n_a, 512, |i, l| {
         let text = nth_string(TOKENS_A, i, len_a);
         for tag in [Tag::None, Tag::Degrees, Tag::Radians] {
-            check_expr(&run, &ExprCase { text: &text, tag, ctx: Ctx::Root, style: 0, unlimited: false, family: "exhaustive-tokens-A" }, None, l);
+            check_expr(&run, &ExprCase { text: &text, tag, ctx: Ctx::Root, style: 0, unlimited: false, family: "exhaustive-tokens-A", hash_nt: i < n_a_hashed }, None, l);
         }
         if i == n_a / 2 + 7 {
             run.sample(|| json!({"family": "exhaustive-tokens-A", "text": text}));
         }
     });
     mark(&run, "exhaustive tokens A");
-    let len_b = tier.pick(6, 7);
+    let len_b = tier.pick(7, 8);
     let n_b = space_size(TOKENS_B.len(), len_b);
+    let n_b_hashed = space_size(TOKENS_B.len(), 7);
     par_chunks(&run, n_b, 512, |i, l| {
         let text = nth_string(TOKENS_B, i, len_b);
         let tag = if text.contains(':') && i % 2 == 1 { Tag::Radians } else { Tag::None };
-        check_expr(&run, &ExprCase { text: &text, tag, ctx: Ctx::Root, style: 0, unlimited: false, family: "exhaustive-tokens-B" }, None, l);
+        check_expr(&run, &ExprCase { text: &text, tag, ctx: Ctx::Root, style: 0, unlimited: false, family: "exhaustive-tokens-B", hash_nt: i < n_b_hashed }, None, l);
     });
     mark(&run, "exhaustive tokens B");
+    // alphabet C: unit calls, groups, sexagesimal, constants, non-finite values under all five tags
+    let len_c = tier.pick(6, 7);
+    let n_c = space_size(TOKENS_C.len(), len_c);
+    let n_c6 = space_size(TOKENS_C.len(), 6);
+    par_chunks(&run, n_c, 512, |i, l| {
+        let text = nth_string(TOKENS_C, i, len_c);
+        for tag in [Tag::None, Tag::Degrees, Tag::Radians, Tag::Float, Tag::Other] {
+            check_expr(&run, &ExprCase { text: &text, tag, ctx: Ctx::Root, style: 0, unlimited: false, family: "exhaustive-tokens-C", hash_nt: i < n_c6 }, None, l);
+        }
+    });
+    // alphabet D: constants, non-finite values, zero, division: NaN / infinity / signed-zero propagation
+    let len_d = tier.pick(6, 7);
+    let n_d6 = space_size(TOKENS_D.len(), 6);
+    let n_d = space_size(TOKENS_D.len(), len_d);
+    par_chunks(&run, n_d, 512, |i, l| {
+        let text = nth_string(TOKENS_D, i, len_d);
+        for tag in [Tag::None, Tag::Degrees] {
+            check_expr(&run, &ExprCase { text: &text, tag, ctx: Ctx::Root, style: 0, unlimited: false, family: "exhaustive-tokens-D", hash_nt: i < n_d6 }, None, l);
+        }
+    });
+    mark(&run, "exhaustive tokens C");
+    // number lexing: sign x mantissa form x exponent form x every placement of one or two separators x tags x contexts
+    {
+        let mut bases: Vec<String> = Vec::new();
+        for sg in NUM_SIGNS {
+            for m in NUM_MANTISSAS {
+                for e in NUM_EXPONENTS {
+                    bases.push(format!("{sg}{m}{e}"));
+                }
+            }
+        }
+        par_chunks(&run, bases.len(), 1, |i, l| check_numlex(&run, &bases[i], l));
+        run.count("number_lexing/base_literals", bases.len() as u64);
+    }
+    mark(&run, "number lexing family");
 
     // ---- 2. random grammar cases (AST + renderer cross-checked against the reference parser) and mutants
-    let n_rand = tier.pick(400_000, 2_500_000);
+    let n_rand = tier.pick(3_000_000, 15_000_000);
     par_chunks(&run, n_rand, 256, |i, l| {
         let mut rng = Rng::stream(seed, i as u64);
         let knobs = match rng.below(4) {
@@ -1179,7 +1504,7 @@ fn real_main(run: Run) {
             2 => exprgen::Knobs { func: 2, sexa: 3, special: 0, nl: rng.chance(1, 4) },
             _ => exprgen::Knobs { func: 2, sexa: 1, special: 1, nl: rng.chance(1, 8) },
         };
-        let depth = rng.range(1, 5);
+        let depth = if rng.chance(1, 5) { rng.range(5, 8) } else { rng.range(1, 5) };
         let g = exprgen::gen_expr(&mut rng, depth, &knobs, false);
         let tag = *rng.pick(&[Tag::None, Tag::None, Tag::None, Tag::None, Tag::Degrees, Tag::Degrees, Tag::Radians, Tag::Radians, Tag::Float, Tag::Other]);
         let ctx = *rng.pick(&[Ctx::Root, Ctx::Root, Ctx::Seq, Ctx::Map]);
@@ -1195,14 +1520,14 @@ fn real_main(run: Run) {
             // sexagesimal fields out of range etc. are generated on purpose
             _ => l.count("generated_reject_or_unspecified"),
         }
-        check_expr(&run, &ExprCase { text: &g.txt, tag, ctx, style, unlimited, family: "random-grammar" }, Some(&calib), l);
+        check_expr(&run, &ExprCase { text: &g.txt, tag, ctx, style, unlimited, family: "random-grammar", hash_nt: true }, Some(&calib), l);
         if i == 3 || i == 1003 {
             run.sample(|| json!({"family": "random-grammar", "text": g.txt, "tag": tag.source(), "ctx": ctx.name(), "reference": format!("{:?}", reference(&g.txt, tag).0)}));
         }
         // one or two mutants of it
         for _ in 0..rng.range(1, 2) {
             let m = exprgen::mutate(&mut rng, &g.txt);
-            check_expr(&run, &ExprCase { text: &m, tag, ctx, style, unlimited, family: "mutant" }, Some(&calib), l);
+            check_expr(&run, &ExprCase { text: &m, tag, ctx, style, unlimited, family: "mutant", hash_nt: true }, Some(&calib), l);
             if i == 5 {
                 run.sample(|| json!({"family": "mutant", "of": g.txt, "text": m, "tag": tag.source(), "reference": format!("{:?}", reference(&m, tag).0)}));
             }
@@ -1227,7 +1552,7 @@ fn real_main(run: Run) {
             ];
             for s in &shapes {
                 for tag in [Tag::None, Tag::Degrees] {
-                    check_expr(&run, &ExprCase { text: s, tag, ctx: Ctx::Root, style: 2, unlimited: true, family: "depth-sweep" }, Some(&calib), l);
+                    check_expr(&run, &ExprCase { text: s, tag, ctx: Ctx::Root, style: 2, unlimited: true, family: "depth-sweep", hash_nt: true }, Some(&calib), l);
                 }
             }
         });
@@ -1252,9 +1577,9 @@ fn real_main(run: Run) {
         }
         par_chunks(&run, us.len(), 64, |i, l| {
             for tag in [Tag::None, Tag::Radians] {
-                check_expr(&run, &ExprCase { text: &us[i], tag, ctx: Ctx::Root, style: 0, unlimited: false, family: "underscore-placement" }, None, l);
+                check_expr(&run, &ExprCase { text: &us[i], tag, ctx: Ctx::Root, style: 0, unlimited: false, family: "underscore-placement", hash_nt: true }, None, l);
                 let wrapped = format!("2*({})", us[i]);
-                check_expr(&run, &ExprCase { text: &wrapped, tag, ctx: Ctx::Root, style: 0, unlimited: false, family: "underscore-placement" }, None, l);
+                check_expr(&run, &ExprCase { text: &wrapped, tag, ctx: Ctx::Root, style: 0, unlimited: false, family: "underscore-placement", hash_nt: true }, None, l);
             }
         });
         // sexagesimal field sweep: all minutes/seconds 0..=99
@@ -1263,7 +1588,7 @@ fn real_main(run: Run) {
             let texts = [format!("7:{m:02}:{s:02}"), format!("-0:{m}:{s}.5"), format!("deg(1:{m:02}:{s:02}.25)"), format!("12:{m:02}")];
             for (j, t) in texts.iter().enumerate() {
                 let tag = [Tag::None, Tag::Radians, Tag::Degrees][(i + j) % 3];
-                check_expr(&run, &ExprCase { text: t, tag, ctx: Ctx::Root, style: 0, unlimited: false, family: "sexagesimal-fields" }, None, l);
+                check_expr(&run, &ExprCase { text: t, tag, ctx: Ctx::Root, style: 0, unlimited: false, family: "sexagesimal-fields", hash_nt: true }, None, l);
             }
         });
         // unit / tag mixing grid
@@ -1287,7 +1612,7 @@ fn real_main(run: Run) {
         par_chunks(&run, mix.len(), 16, |i, l| {
             for tag in [Tag::None, Tag::Degrees, Tag::Radians, Tag::Float, Tag::Other] {
                 for ctx in [Ctx::Root, Ctx::Map] {
-                    check_expr(&run, &ExprCase { text: &mix[i], tag, ctx, style: 0, unlimited: false, family: "unit-tag-mixing" }, None, l);
+                    check_expr(&run, &ExprCase { text: &mix[i], tag, ctx, style: 0, unlimited: false, family: "unit-tag-mixing", hash_nt: true }, None, l);
                 }
             }
         });
@@ -1311,7 +1636,7 @@ fn real_main(run: Run) {
                 }
             }
         });
-        let n_comm = tier.pick(60_000, 1_000_000);
+        let n_comm = tier.pick(1_000_000, 8_000_000);
         par_chunks(&run, n_comm, 256, |i, l| {
             let mut rng = Rng::stream(seed ^ 0x66, i as u64);
             let op = if rng.bool() { '+' } else { '*' };
@@ -1325,6 +1650,61 @@ fn real_main(run: Run) {
         });
     }
     mark(&run, "commutativity");
+    // ---- 3c. exact identities, grouping, unit call vs tag (relations on the real code; cover the unspecified classes too)
+    {
+        let tags5 = [Tag::None, Tag::Degrees, Tag::Radians, Tag::Float, Tag::Other];
+        let nf = COMMUTE_FIXED.len();
+        par_chunks(&run, nf, 1, |i, l| {
+            for tag in tags5 {
+                for ctx in [Ctx::Root, Ctx::Seq, Ctx::Map] {
+                    check_identities(&run, COMMUTE_FIXED[i], tag, ctx, l);
+                }
+            }
+        });
+        par_chunks(&run, nf * nf, 4, |i, l| {
+            let (a, b) = (COMMUTE_FIXED[i / nf], COMMUTE_FIXED[i % nf]);
+            for op in ['+', '-', '*', '/'] {
+                for tag in tags5 {
+                    check_grouping(&run, a, b, op, tag, Ctx::Root, l);
+                }
+            }
+        });
+        let plains = ["2", "pi", "(1+2)", "-3", ".inf", "1e3", "0.1", "180", "90 + 45", "tau/4", "1_000", "2*pi - 1", "--1", "1/3", "-0.0", "inf", "nan", "1e400", "5."];
+        par_chunks(&run, plains.len(), 1, |i, l| {
+            for ctx in [Ctx::Root, Ctx::Seq, Ctx::Map] {
+                check_unit_vs_tag(&run, plains[i], ctx, l);
+            }
+        });
+        let n_rel = tier.pick(600_000, 8_000_000);
+        par_chunks(&run, n_rel, 128, |i, l| {
+            let mut rng = Rng::stream(seed ^ 0x77, i as u64);
+            let tag = *rng.pick(&tags5);
+            let ctx = *rng.pick(&[Ctx::Root, Ctx::Root, Ctx::Seq, Ctx::Map]);
+            match rng.below(4) {
+                0 | 1 => {
+                    let x = exprgen::gen_operand(&mut rng, 0);
+                    check_identities(&run, &x, tag, ctx, l);
+                    if i == 9 {
+                        run.sample(|| json!({"family": "identities", "x": x, "tag": tag.source()}));
+                    }
+                }
+                2 => {
+                    let op = *rng.pick(&['+', '-', '*', '/']);
+                    let mp = if op == '+' || op == '-' { 1 } else { 2 };
+                    let a = exprgen::gen_operand(&mut rng, mp);
+                    let b = exprgen::gen_operand(&mut rng, mp);
+                    check_grouping(&run, &a, &b, op, tag, ctx, l);
+                }
+                _ => {
+                    let k = exprgen::Knobs { func: 0, sexa: 0, special: 1, nl: false };
+                    let depth = rng.range(0, 4);
+                    let g = exprgen::gen_expr(&mut rng, depth, &k, false);
+                    check_unit_vs_tag(&run, &g.txt, ctx, l);
+                }
+            }
+        });
+    }
+    mark(&run, "identities / grouping / unit-vs-tag relations");
     // ---- 4. ordinary literals: option on vs off (f32 / f64 / untyped)
     let mut literal_docs: Vec<String>; // also the corpus for the cross-build dump
     {
@@ -1339,8 +1719,25 @@ fn real_main(run: Run) {
                 toks.push((format!("{a}{t}{b}"), 2, false));
             }
         }
-        let n_lit = tier.pick(60_000, 400_000);
-        let n_wit = tier.pick(15_000, 120_000);
+        // the C06 scalar corpus (every family: a non-float token must stay a non-float) and its long-float extension
+        {
+            let c06 = vcore::scalarcorpus::tokens();
+            run.count("plain/c06_corpus_tokens", c06.len() as u64);
+            for t in c06 {
+                toks.push((t.text.clone(), 0, false));
+                toks.push((t.text, 2, false));
+            }
+            for t in vcore::scalarcorpus::int_separator_tokens() {
+                toks.push((t.text, 0, false));
+            }
+            let mut rng = Rng::stream(seed ^ 0x88, 0);
+            let (nm, np) = tier.pick((200, 200), (3000, 3000));
+            for t in vcore::scalarcorpus::long_float_tokens(&mut rng, nm, np) {
+                toks.push((t.text, 0, false));
+            }
+        }
+        let n_lit = tier.pick(500_000, 3_000_000);
+        let n_wit = tier.pick(60_000, 800_000);
         let toks_fixed = toks.len();
         let collected = std::sync::Mutex::new(Vec::<String>::new());
         par_chunks(&run, toks_fixed + n_lit + n_wit, 128, |i, l| {
@@ -1387,15 +1784,36 @@ fn real_main(run: Run) {
 
     mark(&run, "plain literals on/off");
     // ---- 5. totality: token soup as scalar and as whole document, with CPU bound
-    let n_soup = tier.pick(150_000, 1_000_000);
+    let n_soup = tier.pick(1_000_000, 8_000_000);
     par_chunks(&run, n_soup, 256, |i, l| {
         let mut rng = Rng::stream(seed ^ 0x33, i as u64);
         let s = exprgen::soup(&mut rng);
         let tag = *rng.pick(&[Tag::None, Tag::None, Tag::Degrees, Tag::Radians, Tag::Other]);
-        check_expr(&run, &ExprCase { text: &s, tag, ctx: *rng.pick(&[Ctx::Root, Ctx::Seq, Ctx::Map]), style: *rng.pick(&[0u8, 1, 2]), unlimited: rng.chance(1, 4), family: "soup" }, Some(&calib), l);
+        check_expr(&run, &ExprCase { text: &s, tag, ctx: *rng.pick(&[Ctx::Root, Ctx::Seq, Ctx::Map]), style: *rng.pick(&[0u8, 1, 2]), unlimited: rng.chance(1, 4), family: "soup", hash_nt: true }, Some(&calib), l);
         if rng.chance(1, 3) {
             l.count("rawdoc_cases");
             check_rawdoc(&run, &s, &calib);
+        }
+        if rng.chance(1, 4) {
+            // arbitrary bytes through the slice entry point (mostly invalid UTF-8, BOMs, NULs)
+            let n = rng.range(1, 24);
+            let mut b: Vec<u8> = Vec::with_capacity(n + 8);
+            match rng.below(6) {
+                0 => b.extend_from_slice(&[0xEF, 0xBB, 0xBF]),
+                1 => b.extend_from_slice(&[0xFF, 0xFE]),
+                2 => b.extend_from_slice(&[0xFE, 0xFF]),
+                _ => {}
+            }
+            for _ in 0..n {
+                b.push(match rng.below(4) {
+                    0 => rng.below(256) as u8,
+                    1 => *rng.pick(b"0123456789.eE_+-*/(): "),
+                    2 => *rng.pick(b"pitaudegrnf"),
+                    _ => *rng.pick(&[0u8, 0x80, 0xC3, 0xA9, 0xE2, 0x82, 0xAC, 0xF0, 0x9F, 0xFF, b'\n', b'"', b'!']),
+                });
+            }
+            l.count("rawbytes_cases");
+            check_rawbytes(&run, &b, &calib);
         }
         if i == 11 {
             run.sample(|| json!({"family": "soup", "text": s, "tag": tag.source()}));
@@ -1470,21 +1888,29 @@ fn real_main(run: Run) {
     let scope = format!(
         "(a) every concatenation of 1..={len_a} tokens from {TOKENS_A:?} under tags none/!degrees/!radians, targets f64+f32; \
          (b) every concatenation of 1..={len_b} tokens from {TOKENS_B:?} (number / underscore / exponent / sexagesimal lexing); \
+         (b2) every concatenation of 1..={len_c} tokens from {TOKENS_C:?} under tags none/!degrees/!radians/!!float/!foo (unit calls, groups, tags); \
+         (b3) every concatenation of 1..={len_d} tokens from {TOKENS_D:?} under tags none/!degrees (constants, non-finite values, zero, division); \
+         (b4) number lexing: {{'', +, -}} x {NUM_MANTISSAS:?} x {NUM_EXPONENTS:?} x every insertion of zero, one or two `_` at any position x tags none/!radians/!degrees/!!float x contexts bare / 2*(..) / deg(..) / 1 - .. , each also compared with the same literal without separators; \
          (c) every parenthesis / function nesting depth 1..=300 in six shapes; (d) every insertion of one or two underscores into 12 base numbers; \
-         (e) every minutes x seconds pair 0..=99 x 0..=99 in four sexagesimal shapes; (f) the unit x bare-term x operator x tag grid; (g) operand swap of + and * for every unordered pair of 18 fixed operands x 8 wrappers x 4 tags"
+         (e) every minutes x seconds pair 0..=99 x 0..=99 in four sexagesimal shapes; (f) the unit x bare-term x operator x tag grid; \
+         (g) operand swap of + and * for every unordered pair of 18 fixed operands x 8 wrappers x 4 tags; \
+         (h) 16 exact identities / transparent groupings around each of the 18 fixed operands x 5 tags x 3 positions, grouping of every ordered operand pair x + - * / x 5 tags, unit call vs tag for 19 bare expressions. \
+         Layers longer than 6 (A, C, D) / 7 (B) tokens are evaluated and counted but not entered in the distinct-case hash set"
     );
     let fin = Finish::new(
-        "a case is non-trivial when the reference model gives a verdict (value or documented error) that the library met and the text \
-         contains >= 1 operator / parenthesis / function / sexagesimal form, or when it is a double-rounding witness (decimal string within \
-         one f64 half-ulp of an f32 midpoint) compared on vs off, or a long/deep family member with a definite expectation, or an operand-swapped pair (A op B vs B op A) both accepted with identical bits; distinct by \
-         hash(document, target, option set)",
+        "a case is non-trivial when (1) the reference model gives a verdict (value or documented error) that the library met and the text \
+         contains >= 1 operator / parenthesis / function / sexagesimal form, or (2) it is a double-rounding witness (decimal string within \
+         one f64 half-ulp of an f32 midpoint) compared on vs off, or (3) a long/deep family member with a definite expectation, or (4) a pair \
+         related by an exact relation (operand swap, neutral element, double negation, grouping, separators removed, unit call vs tag) where both \
+         sides were accepted and agreed; distinct by hash(document(s), target, option set); counters nontrivial_counted_not_hashed/* give the \
+         members of the largest exhaustive layers that met rule (1) but were not hashed",
     )
     .exhaustive(scope)
     .assume("std's f64/f32 FromStr is the correctly rounded reading of a decimal literal (C06 checks that independently)")
     .assume("README: untagged hh:mm[:ss] is a time in seconds; under !degrees/!radians it is an angle in degrees delivered in radians; deg(x) = x*(pi/180) up to the order of the two operations")
     .assume("unspecified (no verdict): nested unit functions, inf/nan/infinity identifiers, sexagesimal inside rad() or under other tags, bare scale factors of unitized values under !degrees, blanks between unary signs, fields wider than 2 digits, rejections at nesting depth 65..=256, > 10^6 digits")
     .tool("cargo build -p c19nr --target-dir target-nr (serde-saphyr without the robotics feature)")
-    .min_nontrivial(if tier == Tier::Quick { 100_000 } else { 1_000_000 });
+    .min_nontrivial(if tier == Tier::Quick { 1_000_000 } else { 10_000_000 });
     flush_violation_counts(&run);
     run.finish(fin);
 }
